@@ -263,6 +263,9 @@ func init() {
 					outs = append(outs, "panic")
 					continue
 				}
+				if inc, ierr := rs.Includes(p); ierr == nil && inc == res.Excluded {
+					rep.AddOracle(OracleFailure{Property: "C03", Lane: "ignore", What: fmt.Sprintf("Includes=%v and Excludes.Excluded=%v for the same path", inc, res.Excluded), Input: map[string]string{"rulefile": content, "path": p}})
+				}
 				o := "f"
 				if res.Excluded {
 					o = "t"
